@@ -235,10 +235,11 @@ Theorem C04_go_decoder_rle_boolean_any_runs : forall rs,
 Proof. exact go_boolean_any_runs. Qed.
 
 (** DELTA_BINARY_PACKED: on EVERY well-formed byte string accepted by [dec64]
-    (the specification decoder with varints of at most 10 bytes / 64 bits)
-    whose header passes Go's checks, decodeInt32 / decodeInt64 return the same
-    values and the same remaining input: any block size (multiple of 128, at
-    most 65536) and mini-block count, any min delta, any bit widths.  Partial
+    (the specification decoder with varints of at most 10 bytes / 64 bits and
+    mini-block bit widths of at most the width of the type) whose header
+    passes Go's checks, decodeInt32 / decodeInt64 return the same values and
+    the same remaining input: any block size (multiple of 128, at most 65536)
+    and mini-block count, any min delta, any bit widths up to 32 / 64.  Partial
     with respect to "Go accepts everything the specification decoder accepts":
     [C04_go_decoder_delta_accepts_spec_full_refuted]. *)
 Theorem C04_go_decoder_delta_accepts_spec_partial : forall k b xs rest h,
